@@ -2483,6 +2483,19 @@ func (a *lkAnalysis) emit() {
 	}
 	sb.WriteString("\n].\n\n")
 
+	// escaping aliases of guarded slices and maps
+	sb.WriteString("(* aliases of guarded slice/map fields that leave the critical section:\n   (field, function, position, how) *)\n")
+	sb.WriteString("Definition escaping_guarded_state : list (string * string * string * string) := [\n")
+	if len(a.pkgs) > 0 {
+		for i, e := range a.escapes() {
+			if i > 0 {
+				sb.WriteString(";\n")
+			}
+			fmt.Fprintf(sb, "  (%s, %s, %s, %s)", coqStr(e.field), coqStr(e.fn), coqStr(e.pos), coqStr(e.how))
+		}
+	}
+	sb.WriteString("\n].\n\n")
+
 	// unknowns
 	sort.Slice(a.unknowns, func(i, j int) bool {
 		x, y := a.unknowns[i], a.unknowns[j]
@@ -2514,4 +2527,521 @@ func (a *lkAnalysis) emit() {
 		len(nodes), nlocks, ncalls, nacc, len(edges))
 	fmt.Fprintf(sb, "Definition n_function_bodies : nat := %d.\nDefinition n_lock_sites : nat := %d.\n", len(nodes), nlocks)
 	e.write("Locks.v")
+}
+
+// ---------------------------------------------------------------- escaping guarded state
+//
+// A guarded field of slice or map type must not leave the critical section
+// as an alias: the caller would read (or write) the backing array with the
+// lock released.  A flow-insensitive alias analysis over the function bodies:
+// an expression ALIASES the field F when it is the selector x.F, a reslice
+// of an alias, append(alias, ...), slices.Clip/Delete/DeleteFunc/Insert/
+// Compact/Grow(alias, ...), a conversion of an alias, a local variable that
+// is somewhere assigned an alias, the result of a function of the repository
+// that returns (an alias of) its parameter when that argument is an alias, or
+// the result of a "called locked" function that returns an alias.  An alias
+// ESCAPES when it is returned by a function that does not have F's lock
+// assumed on entry (unless ownership is transferred: `q := x.F; x.F = nil;
+// return q`), stored anywhere but in a local variable or back into x.F, put
+// into a composite literal, sent on a channel, has its address taken, is
+// passed to a `go` statement, to a call through an interface or a function
+// value, or to a function outside the repository other than the builtins and
+// the non-retaining helpers (slices, maps, sort, fmt, log, json), or is
+// captured by a function literal that may run later.  Passing an alias to a
+// function of the repository taints that parameter (context-insensitively)
+// and the same rules apply inside.  Elements (m[k], s[i]) are values, not
+// aliases of the container; pointers stored IN the container are not
+// followed (limit).
+
+type lkEscape struct{ field, fn, pos, how string }
+
+var nonRetainingPkgs = map[string]bool{"slices": true, "maps": true, "sort": true, "fmt": true, "log": true,
+	"json": true, "strings": true, "bytes": true}
+
+var aliasReturningSlicesFuncs = map[string]bool{"Clip": true, "Delete": true, "DeleteFunc": true, "Insert": true,
+	"Compact": true, "CompactFunc": true, "Grow": true}
+
+type escCtx struct {
+	a       *lkAnalysis
+	taint   map[*types.Var]map[string]bool // "F:<field>" guarded field, "A:<field>" argument-borne alias, "P:<i>" parameter i
+	retF    map[*lkNode]map[string]bool    // entry-assumed functions: fields whose alias they return
+	retP    map[*lkNode]map[int]bool       // functions that return (an alias of) parameter i
+	changed bool
+	out     []lkEscape
+	seen    map[string]bool
+}
+
+func (x *escCtx) add(m map[string]bool, k string) {
+	if !m[k] {
+		m[k] = true
+		x.changed = true
+	}
+}
+
+func (x *escCtx) report(n *lkNode, p token.Pos, field, how string) {
+	e := lkEscape{field, n.key, x.a.pos(p), how}
+	k := e.field + "|" + e.fn + "|" + e.pos + "|" + e.how
+	if !x.seen[k] {
+		x.seen[k] = true
+		x.out = append(x.out, e)
+	}
+}
+
+func isRefType(t types.Type) bool {
+	switch t.Underlying().(type) {
+	case *types.Slice, *types.Map:
+		return true
+	}
+	return false
+}
+
+// guardedRef: sel is a guarded field of slice or map type.
+func (x *escCtx) guardedRef(info *types.Info, sel *ast.SelectorExpr) (string, bool) {
+	s := info.Selections[sel]
+	if s == nil || s.Kind() != types.FieldVal {
+		return "", false
+	}
+	f, ok := s.Obj().(*types.Var)
+	if !ok {
+		return "", false
+	}
+	class, guarded := x.a.guard[f.Origin()]
+	if !guarded || !isRefType(f.Type()) {
+		return "", false
+	}
+	return class[:strings.LastIndex(class, ".")] + "." + f.Name(), true
+}
+
+func (x *escCtx) staticCallee(info *types.Info, call *ast.CallExpr) *lkNode {
+	fun := ast.Unparen(call.Fun)
+	switch f := fun.(type) {
+	case *ast.IndexExpr:
+		fun = ast.Unparen(f.X)
+	case *ast.IndexListExpr:
+		fun = ast.Unparen(f.X)
+	}
+	switch f := fun.(type) {
+	case *ast.Ident:
+		if o, ok := info.Uses[f].(*types.Func); ok {
+			return x.a.byObj[o.Origin()]
+		}
+	case *ast.SelectorExpr:
+		if s := info.Selections[f]; s != nil {
+			if s.Kind() == types.MethodVal {
+				if _, isIface := s.Recv().Underlying().(*types.Interface); isIface {
+					return nil
+				}
+				if o, ok := s.Obj().(*types.Func); ok {
+					return x.a.byObj[o.Origin()]
+				}
+			}
+			return nil
+		}
+		if o, ok := info.Uses[f.Sel].(*types.Func); ok {
+			return x.a.byObj[o.Origin()]
+		}
+	}
+	return nil
+}
+
+// calleeName: (package name, function name) of a call of a function that is
+// not in the repository; builtin = ("builtin", name).
+func (x *escCtx) externalName(info *types.Info, call *ast.CallExpr) (string, string, bool) {
+	fun := ast.Unparen(call.Fun)
+	switch f := fun.(type) {
+	case *ast.IndexExpr:
+		fun = ast.Unparen(f.X)
+	case *ast.IndexListExpr:
+		fun = ast.Unparen(f.X)
+	}
+	var id *ast.Ident
+	switch f := fun.(type) {
+	case *ast.Ident:
+		id = f
+	case *ast.SelectorExpr:
+		if info.Selections[f] != nil {
+			return "", "", false
+		}
+		id = f.Sel
+	default:
+		return "", "", false
+	}
+	switch o := info.Uses[id].(type) {
+	case *types.Builtin:
+		return "builtin", o.Name(), true
+	case *types.Func:
+		if o.Pkg() != nil && !x.a.inRepo(o.Pkg()) {
+			return o.Pkg().Name(), o.Name(), true
+		}
+	}
+	return "", "", false
+}
+
+// src: the alias sources of an expression.
+func (x *escCtx) src(n *lkNode, e ast.Expr) map[string]bool {
+	info := n.pkg.TypesInfo
+	switch v := ast.Unparen(e).(type) {
+	case *ast.SelectorExpr:
+		if f, ok := x.guardedRef(info, v); ok {
+			return map[string]bool{"F:" + f: true}
+		}
+	case *ast.Ident:
+		if o, ok := info.Uses[v].(*types.Var); ok {
+			return x.taint[o]
+		}
+		if o, ok := info.Defs[v].(*types.Var); ok {
+			return x.taint[o]
+		}
+	case *ast.SliceExpr:
+		return x.src(n, v.X)
+	case *ast.CallExpr:
+		if tv, ok := info.Types[v.Fun]; ok && tv.IsType() && len(v.Args) == 1 {
+			return x.src(n, v.Args[0])
+		}
+		if pkg, name, ok := x.externalName(info, v); ok {
+			if len(v.Args) > 0 && ((pkg == "builtin" && name == "append") || (pkg == "slices" && aliasReturningSlicesFuncs[name])) {
+				return x.src(n, v.Args[0])
+			}
+			return nil
+		}
+		if t := x.staticCallee(info, v); t != nil {
+			out := map[string]bool{}
+			for f := range x.retF[t] {
+				out["F:"+f] = true
+			}
+			for i := range x.retP[t] {
+				if i < len(v.Args) {
+					for s := range x.src(n, v.Args[i]) {
+						out[s] = true
+					}
+				}
+			}
+			return out
+		}
+	}
+	return nil
+}
+
+func fieldOf(source string) (string, bool) {
+	if strings.HasPrefix(source, "F:") || strings.HasPrefix(source, "A:") {
+		return source[2:], true
+	}
+	return "", false
+}
+
+// transferred: `return q` where q := x.F once and x.F is reset (nil or a
+// fresh value) afterwards, at the top level of the body: ownership moves to
+// the caller.
+func (x *escCtx) transferred(n *lkNode, e ast.Expr) bool {
+	info := n.pkg.TypesInfo
+	id, ok := ast.Unparen(e).(*ast.Ident)
+	if !ok {
+		return false
+	}
+	v, _ := info.Uses[id].(*types.Var)
+	if v == nil {
+		return false
+	}
+	var from string
+	step := 0
+	for _, s := range n.body.List {
+		as, ok := s.(*ast.AssignStmt)
+		if !ok || len(as.Lhs) != 1 || len(as.Rhs) != 1 {
+			continue
+		}
+		switch step {
+		case 0:
+			if l, ok := as.Lhs[0].(*ast.Ident); ok && (info.Defs[l] == v || info.Uses[l] == v) {
+				if sel, ok := ast.Unparen(as.Rhs[0]).(*ast.SelectorExpr); ok {
+					if _, g := x.guardedRef(info, sel); g {
+						from = types.ExprString(sel)
+						step = 1
+					}
+				}
+			}
+		case 1:
+			if sel, ok := ast.Unparen(as.Lhs[0]).(*ast.SelectorExpr); ok && types.ExprString(sel) == from {
+				if r, ok := ast.Unparen(as.Rhs[0]).(*ast.Ident); ok && r.Name == "nil" {
+					step = 2
+				}
+			}
+		}
+	}
+	if step != 2 {
+		return false
+	}
+	// q is assigned exactly once
+	count := 0
+	ast.Inspect(n.body, func(nd ast.Node) bool {
+		if as, ok := nd.(*ast.AssignStmt); ok {
+			for _, l := range as.Lhs {
+				if li, ok := l.(*ast.Ident); ok && (info.Defs[li] == v || info.Uses[li] == v) {
+					count++
+				}
+			}
+		}
+		return true
+	})
+	return count == 1
+}
+
+func (x *escCtx) localVar(info *types.Info, e ast.Expr) *types.Var {
+	id, ok := ast.Unparen(e).(*ast.Ident)
+	if !ok {
+		return nil
+	}
+	var v *types.Var
+	if d, ok := info.Defs[id].(*types.Var); ok {
+		v = d
+	} else if u, ok := info.Uses[id].(*types.Var); ok {
+		v = u
+	}
+	if v == nil || v.Pkg() == nil || v.Parent() == v.Pkg().Scope() || v.IsField() {
+		return nil
+	}
+	return v
+}
+
+func (x *escCtx) assign(n *lkNode, lhs ast.Expr, srcs map[string]bool, p token.Pos) {
+	if len(srcs) == 0 {
+		return
+	}
+	info := n.pkg.TypesInfo
+	if id, ok := ast.Unparen(lhs).(*ast.Ident); ok && id.Name == "_" {
+		return
+	}
+	if v := x.localVar(info, lhs); v != nil {
+		m := x.taint[v]
+		if m == nil {
+			m = map[string]bool{}
+			x.taint[v] = m
+		}
+		for s := range srcs {
+			x.add(m, s)
+		}
+		return
+	}
+	for s := range srcs {
+		f, ok := fieldOf(s)
+		if !ok {
+			continue
+		}
+		if sel, ok := ast.Unparen(lhs).(*ast.SelectorExpr); ok {
+			if g, isG := x.guardedRef(info, sel); isG && g == f {
+				continue // stored back into the same guarded field
+			}
+		}
+		x.report(n, p, f, "stored into "+types.ExprString(lhs))
+	}
+}
+
+func (x *escCtx) walk(n *lkNode) {
+	info := n.pkg.TypesInfo
+	_, params := x.a.fieldVars(n)
+	for i, p := range params {
+		if p != nil && isRefType(p.Type()) {
+			m := x.taint[p]
+			if m == nil {
+				m = map[string]bool{}
+				x.taint[p] = m
+			}
+			x.add(m, fmt.Sprintf("P:%d", i))
+		}
+	}
+	entry := n.entry()
+	isRoot := len(n.roots) > 0
+	ast.Inspect(n.body, func(nd ast.Node) bool {
+		switch v := nd.(type) {
+		case *ast.FuncLit:
+			return false
+		case *ast.AssignStmt:
+			if len(v.Lhs) == len(v.Rhs) {
+				for i := range v.Lhs {
+					x.assign(n, v.Lhs[i], x.src(n, v.Rhs[i]), v.Pos())
+				}
+			} else if len(v.Rhs) == 1 {
+				s := x.src(n, v.Rhs[0])
+				for _, l := range v.Lhs {
+					x.assign(n, l, s, v.Pos())
+				}
+			}
+		case *ast.ValueSpec:
+			if len(v.Names) == len(v.Values) {
+				for i := range v.Names {
+					x.assign(n, v.Names[i], x.src(n, v.Values[i]), v.Pos())
+				}
+			}
+		case *ast.ReturnStmt:
+			results := v.Results
+			if len(results) == 0 && n.ftype.Results != nil {
+				for _, f := range n.ftype.Results.List {
+					for _, nm := range f.Names {
+						results = append(results, nm)
+					}
+				}
+			}
+			for _, r := range results {
+				for s := range x.src(n, r) {
+					switch {
+					case strings.HasPrefix(s, "P:"):
+						var i int
+						fmt.Sscanf(s, "P:%d", &i)
+						if x.retP[n] == nil {
+							x.retP[n] = map[int]bool{}
+						}
+						if !x.retP[n][i] {
+							x.retP[n][i] = true
+							x.changed = true
+						}
+					case strings.HasPrefix(s, "A:"):
+						// an alias that came in as an argument and goes back to
+						// the caller, who holds it anyway (see retP)
+					case strings.HasPrefix(s, "F:"):
+						f := s[2:]
+						class := ""
+						for fv, c := range x.a.guard {
+							if c[:strings.LastIndex(c, ".")]+"."+fv.Name() == f {
+								class = c
+							}
+						}
+						if entry[class] && n.lit == nil {
+							if x.retF[n] == nil {
+								x.retF[n] = map[string]bool{}
+							}
+							x.add(x.retF[n], f)
+						} else if !x.transferred(n, r) {
+							x.report(n, v.Pos(), f, "returned to a caller that does not hold the lock")
+						}
+					}
+				}
+			}
+		case *ast.SendStmt:
+			for s := range x.src(n, v.Value) {
+				if f, ok := fieldOf(s); ok {
+					x.report(n, v.Pos(), f, "sent on a channel")
+				}
+			}
+		case *ast.CompositeLit:
+			for _, el := range v.Elts {
+				val := el
+				if kv, ok := el.(*ast.KeyValueExpr); ok {
+					val = kv.Value
+				}
+				for s := range x.src(n, val) {
+					if f, ok := fieldOf(s); ok {
+						x.report(n, el.Pos(), f, "stored into a composite literal")
+					}
+				}
+			}
+		case *ast.UnaryExpr:
+			if v.Op == token.AND {
+				for s := range x.src(n, v.X) {
+					if f, ok := fieldOf(s); ok {
+						x.report(n, v.Pos(), f, "address taken")
+					}
+				}
+			}
+		case *ast.GoStmt:
+			for _, arg := range v.Call.Args {
+				for s := range x.src(n, arg) {
+					if f, ok := fieldOf(s); ok {
+						x.report(n, v.Pos(), f, "passed to a go statement")
+					}
+				}
+			}
+		case *ast.CallExpr:
+			if tv, ok := info.Types[v.Fun]; ok && tv.IsType() {
+				return true
+			}
+			pkg, name, ext := x.externalName(info, v)
+			callee := x.staticCallee(info, v)
+			for i, arg := range v.Args {
+				srcs := x.src(n, arg)
+				if len(srcs) == 0 {
+					continue
+				}
+				switch {
+				case ext && (pkg == "builtin" || nonRetainingPkgs[pkg]):
+					_ = name
+				case callee != nil:
+					ps := callee.paramsOf(x.a)
+					idx := i
+					if idx >= len(ps) {
+						idx = len(ps) - 1 // variadic
+					}
+					if idx < 0 || ps[idx] == nil {
+						for s := range srcs {
+							if f, ok := fieldOf(s); ok {
+								x.report(n, arg.Pos(), f, "passed to "+callee.key+" (parameter cannot be named)")
+							}
+						}
+						continue
+					}
+					m := x.taint[ps[idx]]
+					if m == nil {
+						m = map[string]bool{}
+						x.taint[ps[idx]] = m
+					}
+					for s := range srcs {
+						if f, ok := fieldOf(s); ok {
+							x.add(m, "A:"+f)
+						}
+					}
+				default:
+					for s := range srcs {
+						if f, ok := fieldOf(s); ok {
+							x.report(n, arg.Pos(), f, "passed to "+types.ExprString(v.Fun)+", which the translator cannot follow")
+						}
+					}
+				}
+			}
+		case *ast.Ident:
+			// captured by a function literal that may run later
+			if isRoot && n.lit != nil {
+				if o, ok := info.Uses[v].(*types.Var); ok {
+					if o.Pos() < n.lit.Pos() || o.Pos() > n.lit.End() {
+						for s := range x.taint[o] {
+							if f, ok := fieldOf(s); ok {
+								x.report(n, v.Pos(), f, "captured by a function literal that may run with the lock released")
+							}
+						}
+					}
+				}
+			}
+		}
+		return true
+	})
+}
+
+func (a *lkAnalysis) escapes() []lkEscape {
+	x := &escCtx{a: a, taint: map[*types.Var]map[string]bool{}, retF: map[*lkNode]map[string]bool{},
+		retP: map[*lkNode]map[int]bool{}}
+	for round := 0; round < 30; round++ {
+		x.changed = false
+		x.out = nil
+		x.seen = map[string]bool{}
+		for _, n := range a.nodes {
+			if n.origin != nil {
+				continue
+			}
+			x.walk(n)
+		}
+		if !x.changed {
+			break
+		}
+	}
+	if x.changed {
+		x.out = append(x.out, lkEscape{"-", "-", "-", "alias analysis did not reach a fixpoint"})
+	}
+	sort.Slice(x.out, func(i, j int) bool {
+		p, q := x.out[i], x.out[j]
+		if p.fn != q.fn {
+			return p.fn < q.fn
+		}
+		if p.pos != q.pos {
+			return p.pos < q.pos
+		}
+		return p.field+p.how < q.field+q.how
+	})
+	return x.out
 }
